@@ -460,7 +460,7 @@ func gridC17(c *core.Ctx) {
 	for i, d := range append(append(gridPairs(th), gridTriples(th)...), bigOfRank(th, 0, 1<<19)...) {
 		i, d := i, d
 		c.Case(fmt.Sprintf("grid/update/%v", d), true, func() core.Verdict {
-			v := c17UpdateCase(d, c17LRs[i%len(c17LRs)], i%3)
+			v := c17UpdateCase(d, c17LRs[i%len(c17LRs)], i%5)
 			if !v.OK && !v.Skip {
 				v.Detail = fmt.Sprintf("grid, weight shape %v: %s", d, v.Detail)
 			}
